@@ -464,6 +464,7 @@ func runCase(c *harness.Ctx, id string, fc *fcase, uniq int) {
 	pctx, cancel := context.WithCancel(ctx)
 	defer cancel()
 	done := make(chan struct{})
+	proposeStart := time.Now()
 	go func() { svc.Propose(pctx, duty); close(done) }()
 	// expectations
 	results := fc.Auction == "winner" || fc.Auction == "no-winner"
@@ -493,6 +494,18 @@ func runCase(c *harness.Ctx, id string, fc *fcase, uniq int) {
 	case <-done:
 		returned = true
 	case <-time.After(map[bool]time.Duration{false: 2500 * time.Millisecond, true: 5 * time.Second}[fc.AuctionSlow]):
+	}
+	// Propose runs under the service's own wall-clock timeouts and this driver's watchdog: if the process was starved of
+	// CPU while it ran (loaded machine), neither the watchdog nor what was or was not requested says anything about the
+	// code, so the case is counted and not judged (found by a sweep under 20 busy loops at seed 8, DESIGN §9.4).
+	if harness.MaxStallSince(proposeStart) > 60*time.Millisecond {
+		c.Count("cases_not_judged_process_stalled", 1)
+		cancel()
+		select {
+		case <-done:
+		case <-time.After(30 * time.Second):
+		}
+		return
 	}
 	if fc.AuctionSlow {
 		c.Count("slow_auctions", 1)
@@ -710,6 +723,7 @@ func run(c *harness.Ctx) {
 var _ builderclient.UnblindedProposalProvider = (*harness.Relay)(nil)
 
 func main() {
+	harness.StartStallMonitor()
 	harness.Main(&harness.Spec{
 		Property:     "C05",
 		Level:        "exploration",
